@@ -969,3 +969,169 @@ func pinFormatted(c *core.Ctx) {
 	c.Check(ok && n > 0, "pin-formatted@"+fname(f), f.Pos(), "on success ValidatePin hands back pin[0:3] - pin[3:5] - pin[5:]",
 		"what ValidatePin hands back on success is not the given code written XXX-XX-XXX: the verifier is computed from another string than the one the controller's user types — a controller with the right setup code cannot pair")
 }
+
+// noResponseWriteUnderServerMutex (C13: one peer cannot leave the accessory unable to serve): the server's mutex is shared by every
+// connection's handlers. A handler that writes its response — to a socket whose peer may have stopped reading — while it holds that
+// mutex blocks every other controller's request at the Lock for as long as the peer pleases. The answer is prepared under the lock
+// and written after it.
+func noResponseWriteUnderServerMutex(c *core.Ctx) {
+	p := c.P
+	tServer := mod + "/hap/http.Server"
+	isServerMutex := func(v ssa.Value) bool {
+		return core.AnySource(v, func(s ssa.Value) bool {
+			_, ok := core.FieldLoad(s, tServer, "mutex")
+			return ok
+		})
+	}
+	n, locked := 0, 0
+	for _, f := range libFuncs(p) {
+		if f.Pkg == nil || f.Pkg.Pkg.Path() != mod+"/hap/http" {
+			continue
+		}
+		hasLock := false
+		core.Instrs(f, func(i ssa.Instruction) {
+			if core.IsCall(i, "(*sync.Mutex).Lock") && isServerMutex(core.CallOf(i).Args[0]) {
+				hasLock = true
+			}
+		})
+		if !hasLock {
+			continue
+		}
+		locked++
+		var inside []string
+		var at token.Pos
+		core.Instrs(f, func(i ssa.Instruction) {
+			isWrite := false
+			if g := core.Callee(i); g != nil {
+				switch {
+				case core.InModule(g) && (cn(g) == "WriteJSON" || cn(g) == "Write" && strings.Contains(core.QualName(g), "hunkedWriter")):
+					isWrite = true
+				case core.QualName(g) == "io.Copy" || core.QualName(g) == "net/http.Error":
+					isWrite = true
+				case core.InModule(g) && takesWriter(i) && writesSomewhere(g, 3, map[*ssa.Function]bool{}):
+					isWrite = true
+				}
+			}
+			if cc := core.CallOf(i); cc != nil && cc.IsInvoke() && core.TypeIs(cc.Value.Type(), "net/http.ResponseWriter") && (cc.Method.Name() == "Write" || cc.Method.Name() == "WriteHeader") {
+				isWrite = true
+			}
+			if !isWrite {
+				return
+			}
+			n++
+			if in, _ := inCriticalSection(f, i, isServerMutex); in {
+				inside = append(inside, p.Position(i.Pos()))
+				if at == token.NoPos {
+					at = i.Pos()
+				}
+			}
+		})
+		if at == token.NoPos {
+			at = f.Pos()
+		}
+		c.Check(len(inside) == 0, "response-written-outside-server-mutex@"+fname(f), at, "the response is written after the server's mutex was released",
+			"a handler writes its response while it holds the server's mutex ("+strings.Join(inside, ", ")+"): a controller that asked and then stopped reading blocks the write, the write holds the lock, and every other controller's request waits at the Lock — one stalled peer leaves the accessory unable to serve the others")
+	}
+	if locked == 0 {
+		c.Note("response-written-outside-server-mutex", token.NoPos, "no handler takes the server's mutex")
+	} else if n == 0 {
+		c.OK("response-written-outside-server-mutex", token.NoPos, "%d handler(s) take the server's mutex; none writes a response in a function that does", locked)
+	}
+}
+
+// takesWriter: the call hands on a ResponseWriter or an io.Writer
+func takesWriter(i ssa.Instruction) bool {
+	cc := core.CallOf(i)
+	if cc == nil {
+		return false
+	}
+	for _, a := range cc.Args {
+		if core.TypeIs(a.Type(), "net/http.ResponseWriter") || core.TypeIs(a.Type(), "io.Writer") {
+			return true
+		}
+	}
+	return false
+}
+
+// writesSomewhere: g (or a module function it calls) writes to a writer it was given
+func writesSomewhere(g *ssa.Function, depth int, seen map[*ssa.Function]bool) bool {
+	if g == nil || depth == 0 || seen[g] || len(g.Blocks) == 0 {
+		return false
+	}
+	seen[g] = true
+	found := false
+	core.Instrs(g, func(i ssa.Instruction) {
+		if found {
+			return
+		}
+		cc := core.CallOf(i)
+		if cc == nil {
+			return
+		}
+		if cc.IsInvoke() {
+			if n := cc.Method.Name(); (n == "Write" || n == "WriteHeader" || n == "WriteString") && (core.TypeIs(cc.Value.Type(), "net/http.ResponseWriter") || core.TypeIs(cc.Value.Type(), "io.Writer")) {
+				found = true
+			}
+			return
+		}
+		h := cc.StaticCallee()
+		if h == nil {
+			return
+		}
+		switch core.QualName(h) {
+		case "io.Copy", "net/http.Error", "(*encoding/json.Encoder).Encode", "io.WriteString", "fmt.Fprintf", "fmt.Fprint", "fmt.Fprintln":
+			found = true
+			return
+		}
+		if core.InModule(h) && takesWriter(i) && writesSomewhere(h, depth-1, seen) {
+			found = true
+		}
+	})
+	return found
+}
+
+// nameProfileErrorHandled (C20: an unpaired accessory advertises itself): the accessory's name is passed through a PRECIS profile to
+// strip accents before it becomes the DNS-SD instance name. The profile *rejects* a whole string for one character it does not allow —
+// a typographic apostrophe, a dash, a degree sign, an emoji: what an iOS keyboard produces — and returns "" with an error. With the
+// error dropped, the empty name goes to the responder, which refuses it, and Start() ends the process: the accessory is never
+// advertised at all. The error of the profile is tested, and what is returned where it failed is not the failed call's result.
+func nameProfileErrorHandled(c *core.Ctx) {
+	p := c.P
+	n := 0
+	for _, f := range libFuncs(p) {
+		core.Instrs(f, func(i ssa.Instruction) {
+			call, ok := i.(*ssa.Call)
+			if !ok {
+				return
+			}
+			g := call.Call.StaticCallee()
+			if g == nil || g.Pkg == nil || g.Pkg.Pkg.Path() != "golang.org/x/text/secure/precis" || g.Signature.Results().Len() != 2 {
+				return
+			}
+			n++
+			var errv ssa.Value
+			for _, r := range *call.Referrers() {
+				if e, isE := r.(*ssa.Extract); isE && e.Index == 1 {
+					errv = e
+				}
+			}
+			tested := false
+			if errv != nil {
+				for _, r := range *errv.Referrers() {
+					if bo, isB := r.(*ssa.BinOp); isB && (bo.Op == token.NEQ || bo.Op == token.EQL) {
+						for _, rr := range *bo.Referrers() {
+							if _, isIf := rr.(*ssa.If); isIf {
+								tested = true
+							}
+						}
+					}
+				}
+			}
+			c.Check(tested, "name-profile-error-handled@"+fname(f), posOf(i), "the error of the text profile decides what is returned",
+				"the error of the PRECIS profile is dropped: for a name with a character the profile rejects (a typographic apostrophe, a dash, an emoji) the function hands back the empty string — the DNS-SD responder refuses the empty instance name and Start() exits the process, the accessory is never advertised")
+		})
+	}
+	if n == 0 {
+		c.Note("name-profile-error-handled", token.NoPos, "no call of a PRECIS profile in the library")
+	}
+}
